@@ -30,6 +30,7 @@ PROFILE = scenario.profile(
     max_iter_choices=(None, None, 1, 2, 3, 5), tol_mesh_choices=(None, 1e-6, 1e-3, 0.1, 0.6, 0.125, 0.03125),
     noise_modes=("none", "none", "auto", "declared", "specified"),
     specified_spellings=("both", "alone"),
+    extra_opts=(("search_n_try", (0, 1, 2), 0.15), ("search_size_locked", (False,), 0.1)),
 )
 PROFILE_T = dict(PROFILE, maxD=6, extra_budget=(0, 300))
 SCRIPT_PROFILE = scenario.profile(
@@ -37,6 +38,7 @@ SCRIPT_PROFILE = scenario.profile(
     x0_classes=("interior", "at_plb", "on_lb"), extra_budget=(10, 110), p_plausible_omitted=0.0,
     max_iter_choices=(None, None, 2, 5, 8), tol_mesh_choices=(None, 1e-6, 1e-3, 0.1, 0.125, 0.0625, 0.015625), target_kinds=("l1",),
     out_spellings=("float",), spellings=("a1",),
+    extra_opts=(("search_n_try", (0, 1, 2), 0.2),),
 )
 N = {"quick": 256, "thorough": 4000}
 N_SCRIPT = {"quick": 160, "thorough": 3000}
